@@ -67,6 +67,63 @@ def is_immutable_value(prog, mod: Module, e: Optional[ast.expr]) -> bool:
     return False
 
 
+READONLY_METHODS = {'get', 'keys', 'values', 'items', 'index', 'count', 'copy', 'union', 'intersection', 'difference',
+                    'issubset', 'issuperset', 'isdisjoint', '__contains__', '__getitem__', '__len__', '__iter__'}
+
+
+def readonly_table(prog, mod: Module, stmt: ast.stmt) -> Optional[str]:
+    """A module-level container display that is a constant table: its elements are immutable (constants, functions,
+    classes, enum members) and every use of its name anywhere in the package only reads it (subscript load, membership,
+    iteration, len(), read-only methods).  Returns the reason when it qualifies, else None."""
+    val = stmt.value
+    targets = stmt.targets if isinstance(stmt, ast.Assign) else [stmt.target]
+    if len(targets) != 1 or not isinstance(targets[0], ast.Name):
+        return None
+    name = targets[0].id
+    if isinstance(val, ast.Dict):
+        leaves = [k for k in val.keys if k is not None] + list(val.values)
+        if any(k is None for k in val.keys):
+            return None
+    elif isinstance(val, (ast.List, ast.Set)):
+        leaves = list(val.elts)
+    else:
+        return None
+    if not leaves or not all(is_immutable_value(prog, mod, x) for x in leaves):
+        return None            # an empty container is a buffer / cache to be filled, not a constant table
+    n_uses = 0
+    for m in prog.modules.values():
+        for node in ast.walk(m.tree):
+            is_ref = (isinstance(node, ast.Name) and node.id == name) or \
+                     (isinstance(node, ast.Attribute) and node.attr == name)
+            if not is_ref or node is targets[0]:
+                continue
+            if isinstance(node, ast.Name) and m is not mod and name not in m.imports:
+                # another module's own local/global of the same name: judged there
+                if not any(isinstance(a, ast.alias) and (a.asname or a.name) == name for a in ast.walk(m.tree)):
+                    continue
+            if isinstance(getattr(node, 'ctx', None), (ast.Store, ast.Del)):
+                return None
+            par = prog.parent(node)
+            n_uses += 1
+            if isinstance(par, ast.Subscript) and par.value is node and isinstance(par.ctx, ast.Load):
+                continue
+            if isinstance(par, ast.Compare) and node in par.comparators and \
+                    all(isinstance(o, (ast.In, ast.NotIn)) for o in par.ops):
+                continue
+            if isinstance(par, (ast.For, ast.comprehension)) and par.iter is node:
+                continue
+            if isinstance(par, ast.Call) and isinstance(par.func, ast.Name) and par.func.id in ('len', 'sorted', 'iter', 'any', 'all') \
+                    and node in par.args:
+                continue
+            if isinstance(par, ast.Attribute) and par.value is node and par.attr in READONLY_METHODS and \
+                    isinstance(prog.parent(par), ast.Call):
+                continue
+            if isinstance(par, ast.alias) or isinstance(par, ast.ImportFrom):
+                continue
+            return None
+    return f'constant table: immutable elements, {n_uses} read-only uses, never written, aliased or passed on'
+
+
 def module_state_instances(ctx) -> List[tuple]:
     """Instances for the 'no module-level / class-level mutable state' rule.
     Returns tuples (module, function, construct, ok, message, node)."""
@@ -79,8 +136,13 @@ def module_state_instances(ctx) -> List[tuple]:
                 if val is None:
                     continue
                 ok = is_immutable_value(prog, mod, val)
+                why = 'module-level binding of an immutable value'
+                if not ok:
+                    table = readonly_table(prog, mod, stmt)
+                    if table:
+                        ok, why = True, table
                 out.append((mod.name, '<module>', stmt, ok,
-                            'module-level binding of an immutable value' if ok else
+                            why if ok else
                             'module-level mutable object: shared between all builds/parses of the process', stmt))
             elif isinstance(stmt, ast.AugAssign):
                 out.append((mod.name, '<module>', stmt, False, 'module-level augmented assignment', stmt))
@@ -194,3 +256,90 @@ def find_containers(ctx, fn_name: str):
         elem = prog.classes.get(t[1][1]) if t[0] == 'list' and t[1][0] == 'cls' else None
         out.append((e.attr, elem))
     return out, lists[0]
+
+
+# ------------------------------------------------------------------------------------------------------------------
+# the gate through which a looked-up declaration leaves a FindResult (shared by C07.single and C13.rejects)
+# ------------------------------------------------------------------------------------------------------------------
+def _len_test(test: ast.expr, subject: str, n: int) -> Optional[bool]:
+    """Truth of `test` when len(<subject>) == n (n = 3 stands for 'many'); None when the test is about something else."""
+    if isinstance(test, ast.UnaryOp) and isinstance(test.op, ast.Not):
+        r = _len_test(test.operand, subject, n)
+        return None if r is None else not r
+    if isinstance(test, ast.BoolOp):
+        rs = [_len_test(v, subject, n) for v in test.values]
+        if any(r is None for r in rs):
+            return None
+        return all(rs) if isinstance(test.op, ast.And) else any(rs)
+    if ast.unparse(test) == subject:
+        return n > 0
+    if isinstance(test, ast.Compare) and len(test.ops) == 1:
+        l, r, op = test.left, test.comparators[0], test.ops[0]
+        flip = False
+        if isinstance(l, ast.Constant):
+            l, r, flip = r, l, True
+        if isinstance(l, ast.Call) and getattr(l.func, 'id', '') == 'len' and len(l.args) == 1 and \
+                ast.unparse(l.args[0]) == subject and isinstance(r, ast.Constant) and isinstance(r.value, int):
+            c = r.value
+            if n == 3 and c >= 3:
+                return None
+            table = {ast.Gt: n > c, ast.GtE: n >= c, ast.Lt: n < c, ast.LtE: n <= c, ast.Eq: n == c, ast.NotEq: n != c}
+            if flip:
+                table = {ast.Gt: c > n, ast.GtE: c >= n, ast.Lt: c < n, ast.LtE: c <= n, ast.Eq: n == c, ast.NotEq: n != c}
+            return table.get(type(op))
+        if ast.unparse(l) == subject and isinstance(r, ast.List) and not r.elts and isinstance(op, (ast.Eq, ast.NotEq)):
+            return (n == 0) if isinstance(op, ast.Eq) else (n != 0)
+    return None
+
+
+def single_instance_gate(ctx) -> List[Tuple[str, bool, str, Any]]:
+    """Findings (what, ok, message, node) about FindResult.get_single_instance: over the abstract lengths {0, 1, 2, many}
+    of the COMPLETE result `self.items`, the dominating raising guards let only length 1 through; with a kind hint a
+    guard refuses a first item of another kind; what is returned is `self.items[0]`."""
+    from ..flow import always_raises
+    prog = ctx.prog
+    out: List[Tuple[str, bool, str, Any]] = []
+    fr = prog.cls('ast_view', 'FindResult')
+    gsi = fr.methods.get('get_single_instance')
+    if gsi is None:
+        return [('get_single_instance', False, 'FindResult.get_single_instance vanished', None)]
+    guards = [s for s in gsi.node.body if isinstance(s, ast.If) and always_raises(s.body) and not s.orelse]
+    lib = []
+    for g in guards:
+        r = next((x for x in ast.walk(g) if isinstance(x, ast.Raise)), None)
+        name = ast.unparse(r.exc.func if isinstance(r.exc, ast.Call) else r.exc) if r is not None and r.exc is not None else ''
+        if name.endswith('FindError'):
+            lib.append(g)
+    first_ret = next((k for k, s in enumerate(gsi.node.body) if any(isinstance(x, ast.Return) for x in ast.walk(s))),
+                     len(gsi.node.body))
+    dominating = [g for g in lib if gsi.node.body.index(g) < first_ret]
+    passed = []
+    for n in (0, 1, 2, 3):
+        fired = any(_len_test(g.test, 'self.items', n) is True for g in dominating)
+        if not fired:
+            passed.append(n)
+    names = {0: 'no match', 1: 'one match', 2: 'two matches', 3: 'many matches'}
+    out.append(('unresolvable reference (0 matches)', 0 not in passed,
+                'an empty result is refused with FindError before anything is returned' if 0 not in passed else
+                'an empty result is not refused by a dominating guard on self.items', gsi.node))
+    amb = [n for n in passed if n >= 2]
+    out.append(('ambiguous reference (>1 matches)', not amb,
+                'a result with more than one declaration along the lookup chain is refused with FindError' if not amb else
+                f'the complete result `self.items` is let through with {" / ".join(names[n] for n in amb)}: several '
+                f'declarations along the lookup chain (e.g. a nearer one of another kind) are not refused', gsi.node))
+    out.append(('single match accepted', 1 in passed,
+                'exactly one match passes the guards' if 1 in passed else 'a single match is refused as well', gsi.node))
+    # kind guard
+    hint = next((a.arg for a in gsi.params()[1:2]), None)
+    kind_guard = [g for g in lib if hint and f'isinstance(self.items[0], {hint})' in ast.unparse(g.test)
+                  and isinstance(g.test, ast.UnaryOp)]
+    out.append(('declaration of the wrong kind', bool(kind_guard),
+                'with a kind hint, a first item of another kind is refused with FindError' if kind_guard else
+                'no guard refuses a declaration whose kind differs from the hint', gsi.node))
+    rets = [x for x in iter_own_nodes(gsi.node) if isinstance(x, ast.Return)]
+    bad = [r for r in rets if r.value is None or ast.unparse(r.value) != 'self.items[0]']
+    out.append(('returned declaration', bool(rets) and not bad,
+                'the declaration handed out is the single element of the complete result' if rets and not bad else
+                f'`{ast.unparse(bad[0])[:60] if bad else "no return"}`: what is handed out is not `self.items[0]` of the complete result',
+                bad[0] if bad else gsi.node))
+    return out
